@@ -36,5 +36,10 @@ package handlers
 //@   ensures [fresh] result != nil && result.baseHandler.server == server && result.baseHandler.receiveBuf.content == ""
 
 // ---- request encoding (C12) -------------------------------------------------------------------
+//@ func (*baseHandler).Done
+//@   assigns nothing
+//@ func (*baseHandler).Server
+//@   assigns nothing
 //@ func (*baseHandler).SendMessage
 //@   at-send h.commands [envelope] elem == "protocol 4.1 base64 " + ufs_b64encode(command) + ";"
+
